@@ -581,3 +581,345 @@ def full_trace():
             raise RuntimeError('harness error: reference run %r %r' % (seq.cases[0].status, seq.cases[0].problems))
         _FULL_TRACE.append(seq.cases[0].trace)
     return _FULL_TRACE[0]
+
+
+# ============================================================================= K3 / K4: the whole program on files
+
+class Event:
+    """One started "process" (kind 'proc': through process_executor; kind 'pp': a preprocessor)."""
+
+    def __init__(self, kind: str, args, where: str, env_view, timeout, listing, source, stdin_text, extra):
+        self.kind = kind
+        self.args = args  # argv (list) or command line (str, shell)
+        self.where = where  # cwd, normalised: 'SDS/<rel>' in the newest sandbox, 'OLD-SDS<k>/...' in an older one, 'W/<rel>'
+        self.env_view = env_view  # the variables VSYM_C17_* the child would see
+        self.timeout = timeout
+        self.listing = listing  # (names in act/, names in tmp/) of the sandbox the cwd lies in
+        self.source = source  # contents of the source file handed to an interpreter (source interpreter actor)
+        self.stdin_text = stdin_text
+        self.extra = extra
+
+    def key(self) -> tuple:
+        return (self.kind, tuple(self.args) if isinstance(self.args, list) else self.args, self.where, self.env_view,
+                self.timeout, self.listing, self.source, self.stdin_text, self.extra)
+
+    def __repr__(self):
+        return 'Event%r' % (self.key(),)
+
+
+PP_TOKEN = 'PPTOKEN'
+
+
+class World:
+    """A scratch directory holding suite and case files + the stand-ins for the OS: every CLI run in it appends to
+    `self.log` (Events and ('out', text) entries for what is written to stdout)."""
+
+    def __init__(self, files: Dict[str, str]):
+        from harness import _C16_lib as L16
+        self.L16 = L16
+        self.dir = os.path.realpath(scratch.new_dir('c17w'))
+        L16.Tree(files).write(self.dir)
+        self.roots: List[str] = []
+        self.log: List = []
+        self.exit_code_of: Callable[[Sequence[str]], int] = lambda args: 0
+
+    # ---- stand-in for the subprocess module (process_executor and preprocessor)
+    DEVNULL = _real_subprocess.DEVNULL
+    PIPE = _real_subprocess.PIPE
+    STDOUT = _real_subprocess.STDOUT
+    TimeoutExpired = _real_subprocess.TimeoutExpired
+    SubprocessError = _real_subprocess.SubprocessError
+
+    def _where(self, cwd: str) -> str:
+        cwd = os.path.realpath(cwd)
+        for k, r in enumerate(reversed(self.roots)):
+            if cwd == r or cwd.startswith(r + os.sep):
+                rel = os.path.relpath(cwd, r)
+                return ('SDS/' if k == 0 else 'OLD-SDS%d/' % k) + rel
+        if cwd == self.dir or cwd.startswith(self.dir + os.sep):
+            return 'W/' + os.path.relpath(cwd, self.dir)
+        return cwd
+
+    def _sandbox_of(self, cwd: str):
+        cwd = os.path.realpath(cwd)
+        for r in reversed(self.roots):
+            if cwd == r or cwd.startswith(r + os.sep):
+                return r
+        return None
+
+    def call(self, args, stdin=None, stdout=None, stderr=None, env=None, timeout=None, shell=False, cwd=None, **extra):
+        if cwd is not None:
+            return self._preprocess(args, cwd, stdout, stderr, extra)
+        here = os.getcwd()
+        eff = os.environ if env is None else env
+        env_view = tuple(sorted((k, v) for k, v in eff.items() if k.startswith('VSYM_C17_')))
+        root = self._sandbox_of(here)
+        listing = None
+        if root is not None:
+            listing = (tuple(sorted(os.listdir(os.path.join(root, 'act')))), tuple(sorted(os.listdir(os.path.join(root, 'tmp')))))
+        source = None
+        if not isinstance(args, str) and len(args) >= 2 and root is not None and os.path.isfile(args[-1]) \
+                and os.path.realpath(args[-1]).startswith(root + os.sep):
+            with open(args[-1]) as f:
+                source = f.read()
+            args = list(args[:-1]) + ['<SRC>']
+        stdin_text = None
+        if stdin is not None and hasattr(stdin, 'read'):
+            stdin_text = stdin.read()
+        x = tuple(sorted(extra.items())) + ((('shell', True),) if shell else ())
+        self.log.append(Event('proc', list(args) if not isinstance(args, str) else args, self._where(here), env_view, timeout,
+                              listing, source, stdin_text, x))
+        return self.exit_code_of(args)
+
+    def _preprocess(self, args, cwd, stdout, stderr, extra):
+        """contract of a preprocessor program: it is given the name of the case file (relative to its directory, which
+        is the cwd) and writes the preprocessed case to stdout.  The stand-in `pp-<X>` replaces PPTOKEN by pp<X>."""
+        self.log.append(Event('pp', list(args), self._where(cwd), None, None, None, None, None, tuple(sorted(extra.items()))))
+        with open(os.path.join(cwd, args[-1])) as f:
+            text = f.read()
+        name = args[0]
+        if not name.startswith('pp-'):
+            stderr.write('no such preprocessor')
+            return 1
+        stdout.write(text.replace(PP_TOKEN, 'pp' + name[3:]))
+        return 0
+
+    # ---- running the main program
+    def _resolver(self) -> str:
+        d = os.path.join(self.dir, '.sandboxes', 'sds-%d' % (len(self.roots) + 1))
+        os.makedirs(d)
+        self.roots.append(d)
+        return d
+
+    def run(self, argv: Sequence[str]):
+        """MainProgram.execute(argv) with cwd = the world's directory.  -> CliRun"""
+        from exactly_lib.cli import main_program
+        from exactly_lib.cli_default import default_main_program_setup as d
+        from exactly_lib.execution import sandbox_dir_resolving
+        from exactly_lib.processing import preprocessor
+        from exactly_lib.util.file_utils.std import StdOutputFiles
+        from exactly_lib.util.process_execution import process_executor
+        L16 = self.L16
+        L16.install_clock()
+        world = self
+
+        class Out:
+            def __init__(self, log):
+                self.parts = []
+                self._log = log
+
+            def write(self, s):
+                self.parts.append(s)
+                if self._log is not None:
+                    self._log.append(('out', s))
+                return len(s)
+
+            def flush(self):
+                pass
+
+            def isatty(self):
+                return False
+
+        out, err = Out(self.log), Out(None)
+        mp = main_program.MainProgram(
+            d.test_case_handling_setup.setup(), self._resolver,
+            d.TestCaseDefinitionForMainProgram(
+                d.TestCaseParsingSetup(d.instruction_name_and_argument_splitter.splitter,
+                                       d.default_instructions_setup.INSTRUCTIONS_SETUP, d.ActPhaseParser()),
+                d.builtin_symbols.ALL),
+            d.test_suite.test_suite_definition(), io.DEFAULT_BUFFER_SIZE)
+        saved = (process_executor.subprocess, preprocessor.subprocess, preprocessor.tempfile,
+                 sandbox_dir_resolving.mk_tmp_dir_with_prefix)
+        process_executor.subprocess = self
+        preprocessor.subprocess = self
+        preprocessor.tempfile = L16._TempfileStub
+        sandbox_dir_resolving.mk_tmp_dir_with_prefix = lambda prefix: world._resolver
+        cwd = os.getcwd()
+        os.chdir(self.dir)
+        had_base = os.environ.get(ENV_BASE_VAR_CLI)
+        os.environ[ENV_BASE_VAR_CLI] = 'base'
+        start = len(self.log)
+        n_roots = len(self.roots)
+        try:
+            try:
+                rc = mp.execute(list(argv), StdOutputFiles(out, err))
+            except Exception as e:  # noqa   an escaping exception is an observation
+                rc = 'EXCEPTION %s: %s' % (type(e).__name__, e)
+            cwd_after = os.getcwd()
+        finally:
+            (process_executor.subprocess, preprocessor.subprocess, preprocessor.tempfile,
+             sandbox_dir_resolving.mk_tmp_dir_with_prefix) = saved
+            if had_base is None:
+                del os.environ[ENV_BASE_VAR_CLI]
+            else:
+                os.environ[ENV_BASE_VAR_CLI] = had_base
+            os.chdir(cwd)
+        left = [r for r in self.roots[n_roots:] if os.path.exists(r) and os.listdir(r)]
+        return CliRun(rc, ''.join(out.parts), ''.join(err.parts), self.log[start:], cwd_after == self.dir, left)
+
+    def close(self):
+        from vsym import exeharness as xh
+        xh._make_writable(self.dir)
+        scratch.remove(self.dir)
+
+
+ENV_BASE_VAR_CLI = 'VSYM_C17_BASE'
+
+
+class CliRun:
+    def __init__(self, rc, out: str, err: str, log: List, cwd_preserved: bool, sandboxes_left: List[str]):
+        self.rc = rc
+        self.out = out
+        self.err = err
+        self.log = log
+        self.cwd_preserved = cwd_preserved
+        self.sandboxes_left = sandboxes_left
+
+    def events(self) -> List[Event]:
+        return [e for e in self.log if isinstance(e, Event)]
+
+    def identifier(self) -> str:
+        """standalone run: the exit identifier is the first line of stdout"""
+        return self.out.split('\n')[0]
+
+    def per_case(self):
+        """suite run -> [(case name as presented, identifier, [Event])] in processing order, or None if the progress
+        output is not of the expected form"""
+        cases = []
+        cur = None
+        for e in self.log:
+            if isinstance(e, Event):
+                if cur is None:
+                    return None  # a process started outside of any case
+                cur[2].append(e)
+            else:
+                text = e[1]
+                if text.startswith('case  ') and text.endswith(': '):
+                    cur = [text[len('case  '):-2], None, []]
+                    cases.append(cur)
+                elif text.startswith('suite '):
+                    cur = None
+        events, rest = _parse_progress(self.out)
+        ids = [(ev[1], ev[2]) for ev in events if ev[0] == 'case']
+        if [c[0] for c in cases] != [n for n, _ in ids]:
+            return None
+        for c, (_, ident) in zip(cases, ids):
+            c[1] = ident
+        return [tuple(c) for c in cases]
+
+    def suite_verdict(self) -> str:
+        lines = self.out.rstrip('\n').split('\n')
+        return lines[-1] if lines else ''
+
+
+def _parse_progress(text: str):
+    from harness import _C16_lib as L16
+    return L16.parse_progress(text)
+
+
+def keys(events: Sequence[Event]) -> List[tuple]:
+    return [e.key() for e in events]
+
+
+# ----------------------------------------------------------------------------- K3: fixtures and the reference oracle
+
+# bits of a contents mask
+B_CONF, B_SETUP, B_ACT, B_BA, B_ASSERT, B_CLEANUP = 1, 2, 4, 8, 16, 32
+ALL_BITS = 63
+_PHASE_OF_BIT = ((B_SETUP, 'setup'), (B_ACT, 'act'), (B_BA, 'before-assert'), (B_ASSERT, 'assert'), (B_CLEANUP, 'cleanup'))
+
+
+class Contents:
+    """What a suite file supplies for its cases / what a case file holds: per phase one line that starts a process
+    tagged '<tag>-<phase>'; [conf]: `actor = source % <tag>-interp` (+ for a suite: `status = FAIL`; for a case:
+    `status = PASS`); a suite may set the preprocessor `pp-<tag>`.  Every line ends with PPTOKEN."""
+
+    def __init__(self, tag: str, mask: int, pp: bool = False):
+        self.tag, self.mask, self.pp = tag, mask, pp
+
+    def phase_line(self, phase: str) -> str:
+        return '%% %s-%s %s' % (self.tag, phase, PP_TOKEN)
+
+    def lines(self, is_suite: bool) -> List[str]:
+        ls = []
+        if self.mask & B_CONF or (is_suite and self.pp):
+            ls.append('[conf]')
+            if is_suite and self.pp:
+                ls.append('preprocessor = pp-%s' % self.tag)
+            if self.mask & B_CONF:
+                ls.append('actor = source %% %s-interp' % self.tag)
+                ls.append('status = FAIL' if is_suite else 'status = PASS')
+        for bit, phase in _PHASE_OF_BIT:
+            if self.mask & bit:
+                ls.append('[%s]' % phase)
+                ls.append(self.phase_line(phase))
+        return ls
+
+
+def suite_file_text(contents: Optional[Contents], cases: Sequence[str], suites: Sequence[str] = ()) -> str:
+    ls = []
+    if suites:
+        ls += ['[suites]'] + list(suites)
+    if cases:
+        ls += ['[cases]'] + list(cases)
+    if contents is not None:
+        ls += contents.lines(True)
+    return '\n'.join(ls) + '\n'
+
+
+def case_file_text(contents: Contents) -> str:
+    return '\n'.join(contents.lines(False)) + '\n'
+
+
+DEFAULT_ENV_VIEW = ((ENV_BASE_VAR_CLI, 'base'),)
+DEFAULT_TIMEOUT = 60  # the manual: the default timeout is 60 seconds
+
+
+def _proc_key(args: Sequence[str], source: Optional[str] = None) -> tuple:
+    return ('proc', tuple(args), 'SDS/act', DEFAULT_ENV_VIEW, DEFAULT_TIMEOUT, ((), ()), source, None, ())
+
+
+def expected_case_run(suite: Optional[Contents], case: Contents, case_file: str, case_dir: str, oracle_bug: bool = False):
+    """Reference oracle (property statement + manual): the identifier and the processes started - in order - by a
+    case that holds `case`, run with the suite contents `suite` (None: no suite applies).
+    case_dir: directory of the case file, relative to the world."""
+    ev = []
+    token = PP_TOKEN
+    if suite is not None and suite.pp:
+        ev.append(('pp', ('pp-' + suite.tag, case_file), 'W/' + case_dir, None, None, None, None, None, ()))
+        token = 'pp' + suite.tag  # the preprocessor transforms the case file (not the lines of the suite)
+    smask = suite.mask if suite is not None else 0
+
+    def line_of(c: Contents, phase: str, tok: str) -> List[str]:
+        return [c.tag + '-' + phase, tok]
+
+    # [conf]: the suite's instructions first, the case's after: the case's settings win
+    if case.mask & B_CONF:
+        interp, ident = case.tag + '-interp', 'PASS'
+    elif smask & B_CONF:
+        interp, ident = suite.tag + '-interp', 'XPASS'
+    else:
+        interp, ident = None, 'PASS'
+    act_lines = []
+    if smask & B_ACT:
+        act_lines.append(suite.phase_line('act'))
+    if case.mask & B_ACT:
+        act_lines.append(case.phase_line('act').replace(PP_TOKEN, token))
+    if interp is None and len(act_lines) > 1:
+        # the command line actor: the act phase is a single command line
+        return 'SYNTAX_ERROR', ev
+    for phase in ('setup', 'act', 'before-assert', 'assert', 'cleanup'):
+        if phase == 'act':
+            if interp is not None:
+                ev.append(_proc_key([interp, '<SRC>'], ''.join(l + '\n' for l in act_lines)))
+            elif act_lines:
+                ev.append(_proc_key(act_lines[0][2:].split()))
+            continue
+        bit = dict((p, b) for b, p in _PHASE_OF_BIT)[phase]
+        s = [_proc_key(line_of(suite, phase, PP_TOKEN))] if smask & bit else []
+        c = [_proc_key(line_of(case, phase, token))] if case.mask & bit else []
+        after = phase == 'cleanup'
+        if oracle_bug and phase == 'setup':
+            after = True  # seeded oracle error
+        ev += (c + s) if after else (s + c)
+    return ident, ev
